@@ -65,8 +65,12 @@ def run_case(chk, case, tier):
         if dd:
             report("same-process", "two runs in one process (global numpy state differs)", dd)
             return
-        # (b) feeding the models back in any order
+        # (b) feeding the models back in any order (only meaningful when every fold model was trained: brew
+        # refuses untrained models with an explicit error, and then falls back to the best feature anyway)
         perms = list(itertools.permutations(range(case["folds"])))
+        if not all(m.is_trained for m in models):
+            chk.reject("returned-models-untrained-feedback-skipped")
+            perms = []
         if len(perms) > 6:
             perms = [perms[0]] + chk.rng.sample(perms[1:], 3 if tier == "quick" else 8)
         for k, perm in enumerate(perms if tier != "quick" else perms[:4]):
